@@ -77,7 +77,8 @@ SPEC = dict(
              "ShardAccount.deserialize = readShardAccount at the regenerated Account parser, same .cell[0]), c11_src_dict_walk (Rd.dictWalk vs the C10 parseEdge), "
              "c11_src_currency_readers (regenerated CurrencyCollection / DepthBalanceInfo / raw load_dict = the hand readers on every slice), "
              "c11_src_accounts_lookup (regenerated ShardAccounts.deserialize(..)[0][key].cell[0] = loadShardAccounts + dictGet on every accounts cell and key); "
-             "open: the straight-line header of ShardStateUnsplit.",
+             "c11_src_state_group (the ^[...] group of the regenerated ShardStateUnsplit = stateRefGroup on every cell); "
+             "open: the composition over the 361 header bits and the reference list of ShardStateUnsplit.",
         level_note='Trusted: Lean kernel; Spec/Cell.lean; the translator harness/translate/pyfunc.py (+ pyobj.py, pybytes.py, pyarith.py) and the declared reading of a '
                    'Cell object in harness/translate/prooffull.py (Cell = PCell, cell[i] = refs[i], get_hash / get_depth = CellInfo.getHash / getDepth, .data / .hash '
                    'property bodies checked against cell.py), validated against the running library whenever source or translator change; Model/Proof.lean '
